@@ -89,4 +89,10 @@ SPECS = {
             "rule": "one evaluation = 1..8 (1 in 20 runs: 9..64) caller goroutines drawing from one http, JSON or static targeter; the source reader parks inside Read (a caller is suspended while holding the targeter's lock, others become lock-waiters), 0..3 breakpoints are armed between the targeter's statements, the controller picks who runs next; the recorded history (invoke/return stamped with controller steps) is checked at quiescence; non-trivial = calls overlapped, a breakpoint was hit or a lock was contended; distinct = distinct event-log hashes",
             "real": ["NewHTTPTargeter, NewJSONTargeter, NewStaticTargeter, peekingScanner, their mutexes and atomics"], "stub": ["source reader (parking), callers, scheduler (controller)"],
             "assumptions": ATTACK_ASSUME + ["linearizability against a pop-only queue is decided directly (real-time order implies index order, exhaustion last) instead of with porcupine: for unique elements the two are equivalent"]},
+    "C20": {"jobs": [{"engine": "attack", "scenario": "prom-C20", "race": False, "quick": 12000, "thorough": 1200000},
+                     {"engine": "attack", "scenario": "prom-C20", "race": True, "quick": 1500, "thorough": 100000}],
+            "rule": "one evaluation = 0..60 (1 in 50 runs: 500..2500) results over 2 methods x 3 URLs x 4 status codes x 3 error texts, distributed over 1..16 observer goroutines calling the real prom.Metrics.Observe, with 0..3 breakpoints armed between its statements and a scraper goroutine calling Registry.Gather at controller-chosen steps; every scrape is checked for internal consistency, the final one against sums computed directly; non-trivial = a breakpoint was hit or a scrape ran during observation; distinct = distinct event-log hashes",
+            "real": ["prom.Metrics (NewMetrics, Register, Observe)", "prometheus client_golang registry, counters, histograms"], "stub": ["observers and scraper (harness goroutines), scheduler (controller)"],
+            "not_simulated": ["the HTTP exposition handler (needs a socket); processAttack feeding Observe during an attack: cmd engine"],
+            "assumptions": ATTACK_ASSUME + ["byte totals are kept below 2^53 so that float64 sums are exact; sample sums compared within 1e-9 relative"]},
 }
